@@ -170,6 +170,21 @@ func init() {
 				},
 			},
 			{
+				// a topic deleted and created again under a subscription that stays behind
+				// (detached): the new topic only shares the old one's NAME
+				ID: "C02/topic-recreated-under-subscriptions", Prop: "C02", Depth: d(tier, 5, 6), Drain: true,
+				Cfg: model.Cfg{Topics: []string{"T0"}, Subs: []model.SubCfg{
+					{Name: "S0", Topic: "T0"},
+					{Name: "S1", Topic: "T0", Filter: fX},
+				}},
+				Alphabet: []model.Op{
+					pub1("T0", "", 0), pub1("T0", "", 1),
+					pull("S0", 10), pull("S1", 10), ack("S0", "oldest"),
+					delTopic("T0"), mkTopic("T0"), delSub("S1"), mkSub("S1"),
+					tick("lease+"),
+				},
+			},
+			{
 				ID: "C02/deadletter-forwarding", Prop: "C02", Depth: d(tier, 6, 7), Drain: true,
 				Cfg: model.Cfg{Topics: []string{"T0", "TD"}, Subs: []model.SubCfg{
 					{Name: "S0", Topic: "T0", DLTopic: "TD", MaxAttempts: 1},
@@ -237,6 +252,21 @@ func init() {
 					stream("S0", "open-nack", "oldest"), stream("S0", "later-nack", "all"), stream("S0", "later-extend", "all"), stream("S0", "open-ack", "mixed"),
 					stream("S0", "later-ack-mixed", "oldest"), stream("S0", "later-ack-mixed", "stale"),
 					ack("S0", "oldest"), tick("lease+"),
+				},
+			},
+			{
+				// one stream that lives across a Seek: what it delivered and acknowledged
+				// before the seek is delivered again (rightly) and acknowledged again on
+				// the SAME stream - the second ack is as final as the first
+				ID: "C03/stream-ack-across-a-seek", Prop: "C03", Depth: d(tier, 5, 6), Drain: true,
+				Cfg: model.Cfg{Topics: []string{"T0"}, Subs: []model.SubCfg{
+					{Name: "S0", Topic: "T0"},
+				}},
+				Prelude: []model.Op{pubN("T0", "", "")},
+				Alphabet: []model.Op{
+					stream("S0", "ack-seek-ack", ""), stream("S0", "plain", ""),
+					pull("S0", 1), pull("S0", 10), ack("S0", "oldest"),
+					pub1("T0", "", 0), seekT("S0", "before-all"), tick("lease+"),
 				},
 			},
 			{
